@@ -417,7 +417,7 @@ pub fn run(ctx: &Ctx) -> i32 {
     }
     let fin = Finish {
         level: "model_checking",
-        rule: format!("(1) stateless exploration of the production path (default settings): every sector in budget, every answer sequence with <= {k} deviations over all roles, in the base routing and the sector's tropical routing; each execution's jacobian and loop momenta are compared with a reference sampler assembled only from oracle pieces (own table and sector, own kappas via libm, exact U and F, own normalisation, own Gamma quantile by bisection, own Box-Muller); (2) exact closed-form anchors: massive tadpole for D=1..6 x 3 weights x 3 masses on the full alphabet product, where the jacobian is constant so its mean equals its value. states = executions, transitions = answers consumed; non-trivial = executions judged"),
+        rule: format!("(1) stateless exploration of the production path (default settings): every sector in budget, every answer sequence with <= {k} deviations over all roles, in the base routing and the sector's tropical routing; each execution's jacobian and loop momenta are compared with a reference sampler assembled only from oracle pieces (own table and sector, own kappas via libm, exact U and F, own normalisation, own Gamma quantile by bisection, own Box-Muller); (1b) the same clauses on the size ladder (beyond 6 loops / 8 edges / 64 signature entries, fixed sector subset), in routings with signature entries of magnitude 2 and a reversed loop (default point of every explored sector), with kinematics scaled by 2^-30 and 2^24, signed masses, weight patterns and externals listed once per leg; (2) exact closed-form anchors: massive tadpole for D=1..6 x 3 weights x 3 masses on the full alphabet product, where the jacobian is constant so its mean equals its value. states = executions, transitions = answers consumed; non-trivial = executions judged"),
         states: acc.get("executions") + acc.get("anchor_executions"),
         transitions: acc.get("answers_consumed") + acc.get("anchor_executions"),
         traces: acc.get("points_judged") + acc.get("anchor_executions"),
